@@ -1,4 +1,5 @@
 SPECIFICATION Spec
+VIEW View
 CHECK_DEADLOCK FALSE
 CONSTANTS
   CHUNK_ALIGN = 4
@@ -6,19 +7,21 @@ CONSTANTS
   MALLOC_OVERHEAD = 4
   FIRST_GOAL = 32
   PAGE = 64
-  MinAligns = {4}
-  Sizes = {0, 1, 3, 8, 25}
-  Aligns = {1, 4, 8}
-  Caps = {25}
-  Limits = {}
   SentAddrs = {16}
-  MaxSlots = 2
   SLOT = 1024
-  MaxLive = 2
+  MinAligns = {1, 4}
+  Sizes = {0, 1, 24, 25, 60}
+  Aligns = {1, 8}
+  Caps = {1, 25}
+  Limits = {0, 8, 24, 30, 80}
+  MaxSlots = 3
+  MaxLive = 0
   MaxRefuse = 1
-  GrowIncs = {1, 30}
-  ShrinkDecs = {1, 20}
-  ClosSizes = {2}
+  GrowIncs = {}
+  ShrinkDecs = {}
+  ClosSizes = {}
+  TrackLive = FALSE
+  EnableTryFill = FALSE
 INVARIANTS
   NoObligationFailed
   InBounds
